@@ -50,29 +50,28 @@ namespace Givaro {
 #define EXTENSION(q,expo) ( NEED_POLYNOMIAL_REPRESENTATION((q),(expo)) ? Extension<>((q), (expo)) : GFqDom<int64_t>((q), (expo)) )
 
 
-	//! XXX
+	//! Degree of a field over its prime field: F.exponent() when the field has one
+	//! (GFqDom<T> of every storage type T and the classes derived from it, Extension<...>), else 1.
     template<typename Field>
-	int64_t Exponent_Trait(const Field& F)
+	inline auto Exponent_Trait_impl(const Field& F, int) -> decltype((int64_t)F.exponent())
+	{
+        return (int64_t)F.exponent();
+    }
+
+    template<typename Field>
+	inline int64_t Exponent_Trait_impl(const Field&, long)
 	{
         return 1;
     }
 
-
 	//! XXX
-    template<>
-	inline int64_t Exponent_Trait(const GFqDom<int64_t>& F)
+    template<typename Field>
+	inline int64_t Exponent_Trait(const Field& F)
 	{
-        return F.exponent();
+        return Exponent_Trait_impl(F, 0);
     }
 
     template<typename BaseField> class Extension;
-
-	//! XXX
-    template<typename BaseField>
-    int64_t Exponent_Trait(const Extension<BaseField>& F)
-	{
-        return F.exponent();
-    }
 
 //! Extension
     template<class BFT = GFqDom<int64_t>  >
